@@ -58,6 +58,12 @@ def rand_half(rng, mode=None):
         edge = [0, 0xFFFF, 0x1FFF0000, 0x10000, 0x1FFFFFFF]
         phys = rng.choice(edge) if rng.random() < 0.3 else rng.randrange(0, 1 << 29)
         func = rng.choice(edge) if rng.random() < 0.3 else rng.randrange(0, 1 << 29)
+        # only one of the two customised: the other keeps the mandated base
+        r = rng.random()
+        if r < 0.2:
+            func = None
+        elif r < 0.4:
+            phys = None
     d = {'mode': m}
     if m in (0, 1):
         tx = dict(d, txid=txid)
@@ -81,8 +87,11 @@ def rand_half(rng, mode=None):
             base['address_extension'] = ae
             mir['address_extension'] = ae
         if phys is not None:
-            base.update(physical_id=phys, functional_id=func)
-            mir.update(physical_id=phys, functional_id=func)
+            base.update(physical_id=phys)
+            mir.update(physical_id=phys)
+        if func is not None:
+            base.update(functional_id=func)
+            mir.update(functional_id=func)
         tx = dict(base)
         rx = dict(base)
         tx_m = dict(mir)
@@ -112,6 +121,7 @@ def rx_match_frame(addr, data, rng=None, functional=False):
             pre = bytes([h['address_extension']])
         if h.get('physical_id') is not None:
             p = h['physical_id'] & 0x1FFF0000
+        if h.get('functional_id') is not None:
             f = h['functional_id'] & 0x1FFF0000
         i = (f if functional else p) | (h['source_address'] << 8) | h['target_address']
     return i, ext, pre + bytes(data)
